@@ -47,7 +47,7 @@ def run(ctx):
                 core.leanchecker(ctx, ["ButlerModel.Props.C13"])
     with repo.Scratch("verif-c13-") as tmp:
         correspondence(ctx, built, tmp)
-        butler_level(ctx, tmp)
+        butler_level(ctx, tmp, built)
 
 
 def correspondence(ctx, model_ok, tmp):
@@ -414,7 +414,7 @@ def correspondence(ctx, model_ok, tmp):
         ctx.notes.append("model not built: correspondence skipped")
 
 
-def butler_level(ctx, tmp):
+def butler_level(ctx, tmp, model_ok=False):
     """Data IDs as the Butler front end accepts them: keys defaulted from the default collections (also after clone()), and
     record-style keys (`seq_num=`, `exposure.obs_id`, a string for a detector) next to or instead of the dimension value."""
     from lsst.daf.butler import Butler, DatasetType
@@ -472,6 +472,17 @@ def butler_level(ctx, tmp):
             return ("lookup-error", type(exn).__name__)
         except Exception as exn:
             return ("INTERNAL", f"{type(exn).__name__}: {str(exn)[:80]}")
+
+    # the same cases for the model (Model/Front.lean): records with numbered fields and coded values
+    req, impl = [], []
+    vcode = {}
+
+    def vc(v):
+        return vcode.setdefault(v, len(vcode) + 1)
+    EXP_F = {"obs_id": 1, "seq_num": 2, "exposure_time": 3, "target_name": 4, "day_obs": 5}
+    DET_F = {"full_name": 1, "raft": 2, "name_in_raft": 3}
+    exp_recs = ";".join(f"{e}:" + ",".join(f"{fi}={'-' if v is None else vc(v)}" for fi, v in ((1, r_[0]), (2, r_[1]), (3, r_[3]), (4, r_[4]), (5, r_[2]))) for e, r_ in sorted(EXPOSURES.items()))
+    det_recs = ";".join(f"{d}:" + ",".join(f"{fi + 1}={'-' if v is None else vc(v)}" for fi, v in enumerate(r_)) for d, r_ in sorted(DETECTORS.items()))
 
     n_cases = 250 if ctx.quick() else 6000
     for c in range(n_cases):
@@ -548,6 +559,14 @@ def butler_level(ctx, tmp):
         got = classify(call)
         ctx.evaluations += 1
         ctx.count(f"record-keys:{name}:{'id+' if give_id else ''}{len(vals)}:{want[0]}")
+        fmap = EXP_F if name == "raw" else DET_F
+        mvals = dict(vals)
+        if name == "raw" and "day_obs" in data_id:
+            mvals["day_obs"] = data_id["day_obs"]
+        if mvals:
+            req.append(f"fr recs {exp_recs if name == 'raw' else det_recs}"), impl.append("ok")
+            req.append(f"fr rewrite {truth if give_id else '-'} " + ",".join(f"{fmap[f_]}={vc(v)}" for f_, v in sorted(mvals.items())))
+            impl.append(str(got[1]["exposure" if name == "raw" else "detector"]) if got[0] == "found" else ("rejected" if got[0] == "rejected" else f"{got[0]}:{got[1]}"))
         if want[0] == "rejected":
             ctx.nontrivial.add(("record-keys", c))
         ok = (got[0] == "rejected") if want[0] == "rejected" else (got == want)
@@ -564,11 +583,17 @@ def butler_level(ctx, tmp):
         insts = set().union(*[holds[c_] for c_ in colls]) if colls else set()
         return next(iter(insts)) if len(insts) == 1 else None
 
-    def check_defaults(bt, colls, explicit, how):
+    runno = {"runA": 1, "runB": 2, "runAB": 3, "runNone": 4}
+    icode = {"A": 1, "B": 2}
+    req.append("fr holds 1:1;2:2;3:1,2;4:-"), impl.append("ok")
+
+    def check_defaults(bt, colls, explicit, how, line=None):
         ctx.evaluations += 1
         ctx.count("defaults:" + how.split(" ")[0])
         want_inst = expected_default(colls, explicit)
         got = dict(bt.registry.defaults.dataId.mapping)
+        if line:
+            req.append(line), impl.append(str(icode.get(got.get("instrument"), "-")))
         if got != ({"instrument": want_inst} if want_inst else {}):
             viol(f"{how}: default data ID is {got}; collections {colls} (explicit default {explicit}) determine {want_inst}", f"defaults:{how}", {"kind": "defaults", "how": how})
             return
@@ -605,22 +630,36 @@ def butler_level(ctx, tmp):
         kw = {"instrument": explicit} if explicit else {}
         bt = Butler.from_config(root, collections=colls, **kw)
         how = f"from_config collections={colls} explicit={explicit}"
-        check_defaults(bt, colls, explicit, how)
+        check_defaults(bt, colls, explicit, how, f"fr mk {','.join(str(runno[c_]) for c_ in colls)} 1 {icode.get(explicit, '-')}")
         for _hop in range(rng.randint(1, 3)):
             colls2 = rng.sample(runs, rng.randint(1, 2))
             mode = rng.choice(["collections", "collections", "collections+dataId", "plain"])
+            cl = ",".join(str(runno[c_]) for c_ in colls2)
             if mode == "collections":
                 bt = bt.clone(collections=colls2)
                 colls = colls2
+                line = f"fr clone {cl} = ="
             elif mode == "collections+dataId":
                 explicit = rng.choice(["A", "B"])
                 bt = bt.clone(collections=colls2, dataId={"instrument": explicit})
                 colls = colls2
+                line = f"fr clone {cl} = {icode[explicit]}"
             else:
                 bt = bt.clone()
+                line = "fr clone = = ="
             how += f" -> clone({mode} {colls if mode != 'plain' else ''}{' ' + explicit if mode == 'collections+dataId' else ''})"
-            check_defaults(bt, colls, explicit, how)
+            check_defaults(bt, colls, explicit, how, line)
     del w
+    if model_ok:
+        got = core.driver(req)
+        nd = 0
+        for line, m, i in zip(req, got, impl):
+            if m != i:
+                nd += 1
+                if nd <= 5:
+                    ctx.broken.append(f"correspondence (front end): `{line[:160]}` model={m} implementation={i}")
+        ctx.extra["front_correspondence_lines"] = len(req)
+        ctx.extra["front_correspondence_disagreements"] = nd
 
 
 def replay(ctx, content):
